@@ -8,6 +8,7 @@ struct SorterSpec {
 	size_t entry_overhead = 0;	// from sorter_entry_overhead(); added per entry by the spill oracle
 	bool set_zero = false;		// call set_max_memory(0): clamped to the minimum (1 byte in the MTBL_VERIF build)
 	std::string tmpdir;
+	std::string late_mkdir;		// if set: this directory (the temp dir) is created only after the options were filled in
 	mtbl_threadpool *pool = nullptr;
 	int finish = 0;			// 0 iterate, 1 mtbl_sorter_write to a writer + read back, 2 destroy without iterating
 	int mfunc = 0;			// merge function family (mergelib.h)
